@@ -586,6 +586,494 @@ def namespace_checks(violations):
     return n
 
 
+# --- user callables of every KIND where the library expects "a callable" (default_factory=, domain=) ---
+
+class _Maker:
+    def __init__(self, value):
+        self.value = value
+
+    def __call__(self, extra=5):
+        return (self.value, extra)
+
+    def make(self):
+        return [self.value]
+
+    @classmethod
+    def of_class(cls):
+        return cls.__name__
+
+    @staticmethod
+    def static():
+        return "sm"
+
+
+def _variadic(*parts):
+    return list(parts)
+
+
+def _kwonly(**kw):
+    return kw
+
+
+class _Pred:
+    def __init__(self, ok):
+        self.ok = ok
+
+    def __call__(self, v, strict=False):
+        return any(type(v) is type(x) and v == x for x in self.ok)
+
+    def test(self, v):
+        return self(v)
+
+
+class _Accept:
+    """a class used as a predicate: the object it constructs is truthy for the admitted values only"""
+    def __init__(self, v):
+        self.v = v
+
+    def __bool__(self):
+        return type(self.v) is int and self.v in (1, 7)
+
+
+class _OnlyContains:
+    """a container that is nothing but a container (no iteration, no length)"""
+    def __contains__(self, v):
+        return type(v) is int and v in (1, 7)
+
+
+def _pred_var(*vs):
+    return type(vs[0]) is int and vs[0] in (1, 7)
+
+
+def factory_kinds():
+    """(label, a fresh zero-argument callable).  What such a default is worth is what calling it with no arguments returns - nothing else
+    about the callable (its class, its signature, the defaults of parameters it may also have) matters."""
+    import collections
+    import functools
+    import types
+    cached = functools.lru_cache(None)(lambda: (1, 2))
+    return [
+        ("builtin class list", list), ("builtin class tuple", tuple), ("builtin class dict", dict), ("builtin class set", set),
+        ("builtin class frozenset", frozenset), ("builtin class str", str), ("builtin class int", int), ("builtin class bool", bool),
+        ("builtin class float", float), ("builtin class bytes", bytes),
+        ("collections.OrderedDict", collections.OrderedDict), ("collections.Counter", collections.Counter),
+        ("collections.defaultdict", collections.defaultdict), ("collections.deque", collections.deque),
+        ("types.SimpleNamespace", types.SimpleNamespace),
+        ("functools.partial(dict, a=1)", functools.partial(dict, a=1)), ("functools.partial(list, (1, 2))", functools.partial(list, (1, 2))),
+        ("functools.partial of a partial", functools.partial(functools.partial(max, 1), 2)), ("functools.partial(int, '12')", functools.partial(int, "12")),
+        ("lambda with a positional-only default", lambda x=0, /: x), ("lambda with a keyword-only default", lambda *, k=3: k),
+        ("lambda with defaulted, *args, keyword-only and **kwargs parameters", lambda x=1, *a, k=2, **kw: (x, a, k, kw)),
+        ("lambda with a falsy default", lambda x=None: x), ("lambda whose default is a list", lambda x=[]: x),
+        ("def f(*parts)", _variadic), ("def f(**kw)", _kwonly),
+        ("bound method", _Maker(7).make), ("bound classmethod", _Maker.of_class), ("staticmethod", _Maker.static),
+        ("callable instance (its __call__ has a defaulted parameter)", _Maker(0)), ("functools.lru_cache wrapper", cached),
+        ("builtin bound method 'abc'.upper", "abc".upper), ("builtin bound method [3, 1].copy", [3, 1].copy),
+        ("plain lambda", lambda: None), ("plain function", pk_factory),
+    ]
+
+
+def domain_kinds():
+    """(label, a domain, examples of values it admits - documentation only, the oracle applies the domain itself): predicates and containers of every kind"""
+    import collections
+    import functools
+    import operator
+    ok = (0, 1, None, "", "t", 7)
+    in17 = [1, 7]
+    truthy = [1, 5, "t", 7, [0]]
+    return [
+        ("class bool as the predicate", bool, truthy), ("operator.truth", operator.truth, truthy),
+        ("operator.not_", operator.not_, [0, "", None, False, []]),
+        ("callable instance (extra defaulted parameter)", _Pred(ok), list(ok)), ("bound method", _Pred(ok).test, list(ok)),
+        ("functools.partial with a keyword", functools.partial(_Pred(ok), strict=True), list(ok)),
+        ("functools.partial(operator.contains, tuple)", functools.partial(operator.contains, (1, 7)), in17 + [True]),
+        ("builtin method-wrapper list.__contains__", [1, 7].__contains__, in17 + [True]),
+        ("builtin bound method frozenset.__contains__", frozenset((1, 7)).__contains__, in17 + [True]),
+        ("lambda with a positional-only parameter and a default", lambda v, /, lo=0: type(v) is int and v in (1, 7), in17),
+        ("lambda with a keyword-only default", lambda v, *, lo=0: type(v) is int and v in (1, 7), in17),
+        ("def p(*vs)", _pred_var, in17), ("a class whose instances are truthy for admitted values", _Accept, in17),
+        ("functools.lru_cache wrapper", functools.lru_cache(None)(lambda v: v in (1, 7)), in17 + [True]),
+        ("container: range", range(0, 8), [0, 1, 5, 7, False, True]), ("container: dict", {1: 0, 7: 0}, in17 + [True]),
+        ("container: dict keys view", {1: 0, 7: 0}.keys(), in17 + [True]), ("container: deque", collections.deque([1, 7]), in17 + [True]),
+        ("container: tuple", (1, 7, None), in17 + [True, None]), ("container: frozenset", frozenset((1, 7)), in17 + [True]),
+        ("container: a user class with __contains__ only", _OnlyContains(), in17),
+    ]
+
+
+PROBE = [0, 1, 5, 7, "t", "", None, False, True, [], [0]]
+
+
+def _strict_eq(a, b):
+    return type(a) is type(b) and core._eq(a, b)
+
+
+def callable_kinds_checks(violations):
+    """default_factory= and domain= given as callables (containers) of other KINDS than a plain function (a plain list)"""
+    from labrea import Option
+    from labrea.exceptions import KeyNotFoundError
+    n = 0
+    keys = ["A", "S.X", "L.1"]
+    absent = {"A": [{}, {"B": 1}], "S.X": [{}, {"S": {}}, {"S": {"Y": 1}, "X": 5}], "L.1": [{}, {"L": []}, {"L": [3]}]}
+    present = {"A": lambda v: {"A": v}, "S.X": lambda v: {"S": {"X": v, "Y": 2}}, "L.1": lambda v: {"L": [9, v]}}
+
+    def report(case, what, **kw):
+        violations.append(dict(desc=f"Option with {case}: {what}", callable_case=case, finding=None, **kw))
+
+    for label, _f in factory_kinds():
+        case = f"default_factory = {label}"
+        for key in keys:
+            bad = None
+            try:
+                f = dict(factory_kinds())[label]
+                opt = Option(key, default_factory=f)
+                for o in absent[key]:
+                    for rnd in range(2):                             # twice: the second value must not depend on what became of the first
+                        n += 1
+                        want = copy.deepcopy(f())                    # the oracle: the callable called with no arguments, now
+                        got = opt.evaluate(copy.deepcopy(o))
+                        if not _strict_eq(got, want):
+                            bad = dict(options=repr(o), got=repr(got), expected=repr(want), what="the key is absent: expected the value the factory returns when called with no arguments")
+                            break
+                        if isinstance(got, list):
+                            got.append("changed by the caller")
+                        elif isinstance(got, dict):
+                            got["changed by the caller"] = 1
+                    if bad:
+                        break
+                    opt.validate(copy.deepcopy(o))
+                for v in FALSY_PY + [3, "t"]:
+                    if bad:
+                        break
+                    n += 1
+                    o = present[key](v)
+                    got = opt.evaluate(copy.deepcopy(o))
+                    if not _strict_eq(got, v):
+                        bad = dict(options=repr(o), got=repr(got), expected=repr(v), what="the key is present: expected the stored value")
+                if not bad:
+                    n += 1
+                    try:
+                        Option(key).evaluate(copy.deepcopy(absent[key][-1]))
+                        bad = dict(options=repr(absent[key][-1]), what="no default: expected a missing-key error")
+                    except KeyNotFoundError as e:
+                        if e.key != key:
+                            bad = dict(options=repr(absent[key][-1]), what=f"no default: the missing-key error names {e.key!r}")
+            except Exception as e:  # noqa
+                bad = dict(what=f"raised {type(e).__name__} ({type(e.__cause__).__name__ if e.__cause__ else 'no cause'}): {str(e)[:160]}")
+            if bad:
+                report(case, bad.pop("what"), key=key, **bad)
+                break
+
+    for label, _d, _adm in domain_kinds():
+        case = f"domain = {label}"
+        for key in keys:
+            bad = None
+            try:
+                dom = next(d for l, d, _a in domain_kinds() if l == label)
+                ref = next(d for l, d, _a in domain_kinds() if l == label)      # a second object of the same kind, for the oracle's own test
+
+                def inside(v):
+                    # what "inside the domain" means: the predicate holds of the value / the container contains it (None: the test itself fails)
+                    try:
+                        return bool(ref(v)) if callable(ref) else (v in ref)
+                    except Exception:  # noqa
+                        return None
+                for dflt in (7, 5):
+                    opt = Option(key, default=dflt, domain=dom)
+                    cases = [(present[key](v), v) for v in PROBE] + [(o, dflt) for o in absent[key][:2]]
+                    for o, v in cases:
+                        n += 1
+                        try:
+                            got = ("ok", opt.evaluate(copy.deepcopy(o)))
+                        except Exception as e:  # noqa
+                            got = ("err", core.classify(e)[0])
+                        ins = inside(v)
+                        if ins:
+                            if not (got[0] == "ok" and _strict_eq(got[1], v)):
+                                bad = dict(options=repr(o), got=repr(got), what=f"the value {v!r} lies in the domain: expected it to be yielded")
+                        elif got[0] == "ok":
+                            bad = dict(options=repr(o), got=repr(got), what=f"the value {v!r} lies outside the domain and was returned")
+                        elif ins is False and got[1] != "domain":
+                            bad = dict(options=repr(o), got=repr(got), what=f"the value {v!r} lies outside the domain: expected the domain failure")
+                        if bad:
+                            break
+                    if bad:
+                        break
+            except Exception as e:  # noqa
+                bad = dict(what=f"raised {type(e).__name__}: {str(e)[:160]}")
+            if bad:
+                report(case, bad.pop("what"), key=key, **bad)
+                break
+    return n
+
+
+FALSY_PY = [None, 0, False, "", [], {}]
+
+
+# --- the options handed over as a Mapping of another KIND (an Option looks its key up through the Mapping protocol only) ---
+
+class _DictSubclass(dict):
+    pass
+
+
+class _UserMapping(__import__("collections").abc.Mapping):
+    def __init__(self, data):
+        self._data = dict(data)
+
+    def __getitem__(self, key):
+        return self._data[key]
+
+    def __iter__(self):
+        return iter(self._data)
+
+    def __len__(self):
+        return len(self._data)
+
+
+def mapping_kinds():
+    import collections
+    import types
+
+    def two_layers(d):
+        items = list(d.items())
+        low = dict(items[1::2])
+        for k, _v in items[:1]:
+            low[k] = "shadowed"
+        return collections.ChainMap(dict(items[::2]), low)
+    return [("dict subclass", _DictSubclass), ("collections.OrderedDict", collections.OrderedDict),
+            ("collections.defaultdict without factory", lambda d: collections.defaultdict(None, d)),
+            ("collections.ChainMap({}, d)", lambda d: collections.ChainMap({}, d)), ("collections.ChainMap of two layers", two_layers),
+            ("types.MappingProxyType", lambda d: types.MappingProxyType(dict(d))), ("collections.UserDict", collections.UserDict),
+            ("a user Mapping", _UserMapping)]
+
+
+def as_kind(po, f, deep):
+    if isinstance(po, dict):
+        return f({k: (as_kind(v, f, deep) if deep else v) for k, v in po.items()})
+    if isinstance(po, list) and deep:
+        return [as_kind(v, f, deep) for v in po]
+    return po
+
+
+def mapping_kinds_checks(violations):
+    """Option.evaluate / validate under options that are a dict subclass, an OrderedDict, a ChainMap, a MappingProxyType, a UserDict, a user
+    Mapping (top level only / sections too): the value stored under the key when present (every falsy value, templated strings resolved
+    against the same options), else the default, else the missing-key error naming the key - decided by this module's own lookup on the content"""
+    from labrea import Option
+    from labrea.exceptions import KeyNotFoundError
+    n = 0
+    stored = FALSY_PY + [3, "t", [1, 2], {"Y": 1}, "{B}", "a{B}", "{M.N}"]
+    shapes = {"A": lambda v: {"A": v, "B": 5, "M": {"N": 0}}, "S.X": lambda v: {"S": {"X": v, "Y": 2}, "B": 5, "M": {"N": 0}},
+              "S.X.Y": lambda v: {"S": {"X": {"Y": v}}, "B": 5, "M": {"N": 0}}, "L.1": lambda v: {"L": [9, v], "B": 5, "M": {"N": 0}}}
+    absent = {"A": [{}, {"B": 1}], "S.X": [{}, {"S": {}}, {"S": {"Y": 1}, "X": 5}], "S.X.Y": [{"S": {"X": {}}}, {"S": {}}], "L.1": [{"L": [3]}, {"L": []}]}
+    for label, f in mapping_kinds():
+        for deep in (False, True):
+            bad = None
+            for key in shapes:
+                cases = [shapes[key](v) for v in stored] + absent[key] + [shapes[key]("{NOPE}"), shapes[key]("x{S.NOPE}")]
+                for po in cases:
+                    for dflt in (("none",), ("constant", 7), ("falsy", None)):
+                        n += 1
+                        opt = Option(key) if dflt[0] == "none" else Option(key, default=dflt[1])
+                        try:
+                            want = ("ok", ref_resolve(ref_get(key, po), po))
+                        except Missing as m:
+                            want = ("missing", m.args[0]) if (m.args[0] != key or dflt[0] == "none") else ("ok", dflt[1])
+                        try:
+                            got = ("ok", opt.evaluate(as_kind(copy.deepcopy(po), f, deep)))
+                        except KeyNotFoundError as e:
+                            got = ("missing", e.key)
+                        except Exception as e:  # noqa
+                            got = ("err", type(e).__name__, type(e.__cause__).__name__ if e.__cause__ else None)
+                        if want[0] == "ok":
+                            okay = got[0] == "ok" and _deep_strict_eq(_plain(got[1]), want[1])
+                        else:
+                            okay = got == want
+                        if okay and want[0] == "ok":
+                            try:
+                                opt.validate(as_kind(copy.deepcopy(po), f, deep))
+                            except Exception as e:  # noqa
+                                okay, got = False, ("validate raised", type(e).__name__)
+                        if not okay:
+                            bad = dict(key=key, default=dflt[0], content=repr(po), got=repr(got)[:300], expected=repr(want)[:300])
+                            break
+                    if bad:
+                        break
+                if bad:
+                    break
+            if bad:
+                violations.append(dict(desc=f"Option under options given as [{label}]{' (sections too)' if deep else ''}: does not yield what the content demands",
+                                       mapping_case=f"{label}/{deep}", finding=None, **bad))
+    return n
+
+
+def _plain(v):
+    """a value with every Mapping inside turned into a dict (what the value IS, whatever kind the caller's sections were)"""
+    import collections.abc
+    if isinstance(v, collections.abc.Mapping):
+        return {k: _plain(x) for k, x in v.items()}
+    if isinstance(v, list):
+        return [_plain(x) for x in v]
+    return v
+
+
+# --- namespace members under every legal NAME ---
+
+def _ns_obs(x, m, o):
+    from labrea.exceptions import KeyNotFoundError
+    try:
+        r = getattr(x, m)(copy.deepcopy(o))
+        return ("ok", r, type(r).__name__)
+    except KeyNotFoundError as e:
+        return ("missing", e.key)
+    except Exception as e:  # noqa
+        c = e.__cause__
+        return ("err", type(e).__name__, type(c).__name__ if c is not None else None, getattr(c, "key", None))
+
+
+def _deep_strict_eq(a, b):
+    if type(a) is not type(b):
+        return False
+    if isinstance(a, dict):
+        return a.keys() == b.keys() and all(_deep_strict_eq(a[k], b[k]) for k in a)
+    if isinstance(a, list):
+        return len(a) == len(b) and all(_deep_strict_eq(x, y) for x, y in zip(a, b))
+    return core._eq(a, b)
+
+
+def namespace_names_checks(violations):
+    """members declared under every attribute name / key string / sub-namespace name the library accepts (leading and trailing underscores,
+    a single underscore, dunder-like and name-mangled names, lower case, non-ASCII identifiers, names of the Namespace object's own
+    attributes, Option keys and sub-namespace names with hyphens, spaces, slashes, names that look like numbers), as annotations, Options,
+    Option.auto() and nested namespaces: each behaves like the fully-qualified Option, and so does the namespace as a whole"""
+    from labrea import Option
+    n = 0
+
+    class _Hidden:
+        Z = Option("Z", default="{PKG.a}/z")
+        _z: int
+        _y = Option.auto(default="{PKG.SUB._z}")
+
+    class _Inner:
+        _W = Option("W", default=None)
+
+    _Hidden._IN = Option.namespace("in-ner")(_Inner)
+
+    @Option.namespace
+    class PKG:
+        a: int
+        _A: int
+        B = Option.auto(default=1, domain=[0, 1, 2])
+        _B = Option.auto(default=1, domain=[0, 1, 2])
+        B_ = Option.auto(default=False)
+        _ = Option.auto(default="{PKG.a}")
+        __M = Option.auto(default=3)
+        __d__ = Option.auto(default=4, domain=[0, 4])
+        é = Option.auto(default=5)
+        keys = Option.auto(default=6)
+        _key = Option.auto(default=8)
+        _members = Option("_members", default=[])
+        _C = Option("C", default="{PKG.a}-c")
+        _D = Option("D")
+        _E = Option("my-opt", default="{PKG.file name}!")
+        F = Option("file name")
+        _G = Option("région/est", default=0, domain=[0, 3])
+        _SUB = Option.namespace("SUB")(_Hidden)
+        S2 = Option.namespace("MODULE-2")(type("X", (), {"A": 10, "_p": Option.auto(default=""), "__annotations__": {"b c": int, "_q": str}}))
+        _S3 = Option.namespace("7")(type("Y", (), {"A": 10}))
+
+    # (how the member is reached, the equivalent fully-qualified Option)
+    q = lambda k, **kw: Option("PKG." + k, **kw)
+    pairs = [
+        ("a", lambda: PKG.a, q("a")), ("_A", lambda: PKG._A, q("_A")), ("B", lambda: PKG.B, q("B", default=1, domain=[0, 1, 2])),
+        ("_B", lambda: PKG._B, q("_B", default=1, domain=[0, 1, 2])), ("B_", lambda: PKG.B_, q("B_", default=False)),
+        ("_", lambda: PKG._, q("_", default="{PKG.a}")), ("_PKG__M", lambda: getattr(PKG, "_PKG__M"), q("_PKG__M", default=3)),
+        ("__d__", lambda: getattr(PKG, "__d__"), q("__d__", default=4, domain=[0, 4])), ("é", lambda: getattr(PKG, "é"), q("é", default=5)),
+        ("keys", lambda: PKG["keys"], q("keys", default=6)), ("_key", lambda: PKG["_key"], q("_key", default=8)),
+        ("_members", lambda: PKG["_members"], q("_members", default=[])),
+        ("_C", lambda: PKG._C, q("C", default="{PKG.a}-c")), ("_D", lambda: PKG._D, q("D")), ("_D (item access)", lambda: PKG["_D"], q("D")),
+        ("_E", lambda: PKG._E, q("my-opt", default="{PKG.file name}!")), ("F", lambda: PKG.F, q("file name")),
+        ("_G", lambda: PKG._G, q("région/est", default=0, domain=[0, 3])),
+        ("_SUB.Z", lambda: PKG._SUB.Z, q("SUB.Z", default="{PKG.a}/z")), ("_SUB._z", lambda: PKG._SUB._z, q("SUB._z")),
+        ("_SUB._y", lambda: PKG._SUB._y, q("SUB._y", default="{PKG.SUB._z}")),
+        ("_SUB._IN._W", lambda: PKG._SUB._IN._W, q("SUB.in-ner.W", default=None)),
+        ("S2.A", lambda: PKG.S2.A, q("MODULE-2.A", default=10)), ("S2._p", lambda: PKG.S2._p, q("MODULE-2._p", default="")),
+        ("S2['b c']", lambda: PKG.S2["b c"], q("MODULE-2.b c")), ("S2._q", lambda: PKG.S2._q, q("MODULE-2._q")),
+        ("_S3.A", lambda: PKG._S3.A, q("7.A", default=10)),
+    ]
+    full = {"a": 1, "_A": 2, "B": 0, "_B": 0, "B_": "", "_": None, "_PKG__M": 9, "__d__": 0, "é": [], "keys": 0, "_key": False,
+            "_members": [1], "C": "", "D": None, "my-opt": "{PKG.file name}", "file name": "f", "région/est": 3,
+            "SUB": {"Z": 0, "_z": 1, "_y": "", "in-ner": {"W": 0}}, "MODULE-2": {"A": None, "_p": "p", "b c": 4, "_q": "q"}, "7": {"A": 0}}
+    needed = {"a": 5, "_A": 0, "D": False, "file name": "n", "SUB": {"_z": 0}, "MODULE-2": {"b c": None, "_q": ""}}
+    dicts = [{"PKG": full}, {"PKG": needed}, {"PKG": dict(needed, _B=7, B=7)}, {"PKG": dict(needed, **{"__d__": 1, "région/est": 1})},
+             {"PKG": dict(needed, C="{PKG._A}!", _="{PKG.SUB.Z}", D="{PKG.é}{PKG.B_}")}, {"PKG": {"a": 0}}, {"PKG": {}}, {},
+             {"PKG": dict(needed, SUB={"_z": 3, "_y": 0, "Z": "{PKG.MODULE-2.b c}", "in-ner": {}})},
+             {"PKG": {k: v for k, v in needed.items() if k != "D"}}, {"PKG": dict(needed, **{"MODULE-2": {"b c": 1}})}]
+    methods = ("evaluate", "validate", "keys", "explain")
+    qualified = {}
+    for name, reach, ref in pairs:
+        qualified[ref.key] = ref
+        for o in dicts:
+            for m in methods:
+                n += 1
+                try:
+                    member = reach()
+                except Exception as e:  # noqa
+                    a = ("no such member", type(e).__name__)
+                else:
+                    a = _ns_obs(member, m, o)
+                b = _ns_obs(ref, m, o)
+                if a != b:
+                    violations.append(dict(desc=f"namespace member PKG.{name} (declared under a name the library accepts) differs from the fully-qualified "
+                                                f"Option({ref.key!r}) on {m}", options=repr(o), member=repr(a), qualified=repr(b), finding=None,
+                                           namespace_case="names:" + name))
+                    break
+            else:
+                continue
+            break
+    # the namespace as a whole = all its fully-qualified Options
+    for reach, prefix, what in [(lambda: PKG, "PKG.", "PKG"), (lambda: PKG._SUB, "PKG.SUB.", "PKG._SUB"), (lambda: PKG.S2, "PKG.MODULE-2.", "PKG.S2")]:
+        try:
+            ns = reach()
+        except Exception as e:  # noqa
+            violations.append(dict(desc=f"namespace {what}: the declared sub-namespace cannot be reached ({type(e).__name__}: {e})", finding=None,
+                                   namespace_case="names:whole:" + what))
+            continue
+        mine = {k: r for k, r in qualified.items() if k.startswith(prefix)}
+        for o in dicts:
+            per = {m: {k: _ns_obs(r, m, o) for k, r in mine.items()} for m in methods}
+            for m in methods:
+                n += 1
+                got = _ns_obs(ns, m, o)
+                fails = [v for v in per[m].values() if v[0] != "ok"]
+                bad = None
+                if fails:
+                    if got[0] == "ok":
+                        bad = f"a grouped option fails ({fails[0]!r}) but the namespace does not"
+                elif got[0] != "ok":
+                    bad = "every grouped option succeeds but the namespace fails"
+                elif m in ("keys", "explain"):
+                    want = set().union(*(v[1] for v in per[m].values()))
+                    if got[1] != want:
+                        bad = f"expected the union of the grouped options' answers {sorted(want)!r}"
+                elif m == "evaluate":
+                    want = {}
+                    for k, v in per[m].items():
+                        cur = want
+                        parts = k[len(prefix):].split(".")
+                        for part in parts[:-1]:
+                            cur = cur.setdefault(part, {})
+                        cur[parts[-1]] = v[1]
+                    if not _deep_strict_eq(got[1], want):
+                        bad = f"expected every grouped option's value under its name: {want!r}"
+                if bad:
+                    violations.append(dict(desc=f"namespace {what} as a whole on {m}: {bad}", options=repr(o), got=repr(got)[:600], finding=None,
+                                           namespace_case="names:whole:" + what))
+                    break
+            else:
+                continue
+            break
+    return n
+
+
 def set_checks(ctx, violations):
     """Option.set with a non-mapping value"""
     from labrea import Option
@@ -712,6 +1200,9 @@ def child_main():
         ctx = _ChildCtx(req["seed"], req["quick"])
         violations, stats, _corr, n = exhaustive_options(ctx)
         n += namespace_checks(violations)
+        n += namespace_names_checks(violations)
+        n += callable_kinds_checks(violations)
+        n += mapping_kinds_checks(violations)
         n += set_checks(ctx, violations)[0]
         untagged = [v for v in violations if not v.get("finding")]
         out.update(violations=untagged[:25] + [v for v in violations if v.get("finding")][:5], n_violations=len(violations), n=n, optimize=sys.flags.optimize, debug=__debug__, dev_mode=sys.flags.dev_mode,
@@ -768,7 +1259,8 @@ def known_witnesses():
 def run(ctx):
     children = start_interpreters(ctx)
     violations, stats, corr, n_opt = exhaustive_options(ctx)
-    n_ns = namespace_checks(violations)
+    n_ns = namespace_checks(violations) + namespace_names_checks(violations)
+    n_kinds = callable_kinds_checks(violations) + mapping_kinds_checks(violations)
     n_set, set_cases = set_checks(ctx, violations)
     corr = [s for _, s in corpus_for(PID)] + corr
     # random options with chained defaults etc. through the general generator
@@ -793,7 +1285,7 @@ def run(ctx):
         if v.get("finding"):
             tagged[v["finding"]] = tagged.get(v["finding"], 0) + 1
     return {
-        "evaluations": n_opt + n_ns + n_set + cstats["ops"] + n_ext,
+        "evaluations": n_opt + n_ns + n_kinds + n_set + cstats["ops"] + n_ext,
         "distinct_nontrivial": n_opt,
         "rule": "every key of a nested universe (section, prefixes of one another, list indices) x every falsy/truthy/templated value stored "
                 "under it (plus absent, scalar-parent and empty-section dictionaries) x 7 default forms (none, constant, falsy constant, template, "
@@ -809,7 +1301,7 @@ def run(ctx):
         "correspondence_mismatches": mism[:5],
         "violations": violations,
         "known": known_witnesses(),
-        "distribution": dict(cstats, expected_outcomes=stats, namespace_checks=n_ns, set_checks=n_set, tagged=tagged, interpreters=interp, copied_live_history_ops_vs_model=n_var),
+        "distribution": dict(cstats, expected_outcomes=stats, namespace_checks=n_ns, callable_kind_checks=n_kinds, set_checks=n_set, tagged=tagged, interpreters=interp, copied_live_history_ops_vs_model=n_var),
         "exhaustive": not ctx.quick,
         "assumptions": ["the oracle's lookup/resolver is an independent transcription of the property text (dotted lookup, transitive templating)"],
         "trusted_base": ["confectioner get_dotted_key/resolve/set_dotted_key/mix are modelled and validated by this correspondence run"],
@@ -845,8 +1337,15 @@ def replay(ctx, payload):
         e = scn["exprs"][0]
         check_option(dict(ftable=scn["ftable"], env=scn["env"]), e[1], e[2], e[3], scn["ops"][0][4], viol, {})
         return bool([v for v in viol if not v.get("finding")]) or bool(viol and payload.get("finding")), dict(violations=viol)
+    if "mapping_case" in payload:
+        mapping_kinds_checks(viol)
+        return any(v.get("mapping_case") == payload["mapping_case"] for v in viol), dict(violations=[v for v in viol if v.get("mapping_case") == payload["mapping_case"]][:3])
+    if "callable_case" in payload:
+        callable_kinds_checks(viol)
+        return any(v.get("callable_case") == payload["callable_case"] for v in viol), dict(violations=[v for v in viol if v.get("callable_case") == payload["callable_case"]][:3])
     if "namespace_case" in payload:
         namespace_checks(viol)
+        namespace_names_checks(viol)
         return any(v.get("namespace_case") == payload["namespace_case"] for v in viol), dict(violations=viol[:3])
     if "key" in payload:
         set_checks(ctx, viol)
